@@ -349,6 +349,10 @@ func oracleFor(op *Sexp, res string) []string {
 		if res != want {
 			bad("target after Unmarshal breaks the merge rules: got %s want %s", res, want)
 		}
+	case "internmany":
+		if res != "ok wrong=0" {
+			bad("decoding many distinct values through one interned field: %s", res)
+		}
 	case "declong":
 		if !strings.HasPrefix(res, "ok same=true ") {
 			bad("a long value did not come back: %s", res)
